@@ -492,7 +492,7 @@ var shKindNames = []string{"listoffsets", "deleterecords", "offsetforleaderepoch
 
 func genShard(a hx.Args) {
 	r := hx.NewRng(a.Seed ^ 0xC23)
-	n := a.N(400, 4000)
+	n := a.N(400, 15000)
 	if a.Tier == "thorough" {
 		// small scope, exhaustively: every kind x cluster size x fault kind, three item sets each
 		for _, k := range shKindNames {
